@@ -2,7 +2,11 @@ package simrt
 
 import (
 	"crypto/tls"
+	"fmt"
 	"net"
+	"reflect"
+	"sort"
+	"sync"
 	"time"
 )
 
@@ -96,4 +100,127 @@ func MakeBytes(n int) []byte {
 		panic(AllocFailure{n})
 	}
 	return make([]byte, n)
+}
+
+// ---- package-level state of the code under test ---------------------------------------------------------------
+
+type resetFn struct {
+	name string
+	fn   func()
+}
+
+var resets []resetFn
+
+// RegisterReset is called from generated init functions of instrumented packages (in package initialisation order).
+func RegisterReset(name string, fn func()) { resets = append(resets, resetFn{name, fn}) }
+
+// ResetGlobals re-initialises every mutated package-level variable of the instrumented code, in registration order.
+// The worker calls it before each run: the real tool starts every run from a fresh process image.
+func ResetGlobals() int {
+	for _, r := range resets {
+		r.fn()
+	}
+	auxMu.Lock()
+	pools = map[*sync.Pool][]interface{}{}
+	onces = map[*sync.Once]*onceState{}
+	auxMu.Unlock()
+	return len(resets)
+}
+
+// ---- sync.Pool, sync.Once, sync.Map.Range --------------------------------------------------------------------
+
+var (
+	auxMu sync.Mutex
+	pools = map[*sync.Pool][]interface{}{}
+	onces = map[*sync.Once]*onceState{}
+)
+
+// PoolGet / PoolPut replace sync.Pool with a deterministic last-in-first-out free list that never drops an item (one
+// of the behaviours sync.Pool may show): what a later Get returns must not depend on the garbage collector.
+func PoolGet(p *sync.Pool) interface{} {
+	auxMu.Lock()
+	if l := pools[p]; len(l) > 0 {
+		x := l[len(l)-1]
+		pools[p] = l[:len(l)-1]
+		auxMu.Unlock()
+		return x
+	}
+	auxMu.Unlock()
+	if p.New != nil {
+		return p.New()
+	}
+	return nil
+}
+
+func PoolPut(p *sync.Pool, x interface{}) {
+	if x == nil {
+		return
+	}
+	auxMu.Lock()
+	pools[p] = append(pools[p], x)
+	auxMu.Unlock()
+}
+
+type onceState struct {
+	st int // 0 not started, 1 running, 2 done
+	q  WaitQ
+}
+
+// OnceDo replaces (*sync.Once).Do: a task that arrives while f is running parks on the simulator instead of blocking
+// on the Once's internal mutex with the baton in hand.
+func OnceDo(o *sync.Once, f func(), site string) {
+	s := current()
+	if s == nil || s.self() == nil {
+		o.Do(f)
+		return
+	}
+	auxMu.Lock()
+	st := onces[o]
+	if st == nil {
+		st = &onceState{}
+		onces[o] = st
+	}
+	auxMu.Unlock()
+	s.Yield(site)
+	switch st.st {
+	case 2:
+		return
+	case 1:
+		for st.st == 1 {
+			s.ParkOn(&st.q, "once:"+site, 0)
+		}
+		return
+	}
+	st.st = 1
+	defer func() {
+		st.st = 2
+		s.WakeAll(&st.q)
+	}()
+	o.Do(f)
+}
+
+// SyncMapRange replaces (*sync.Map).Range: entries are visited in a fixed order (sorted by their printed key), outside
+// the map's own iteration, so that neither the order nor a scheduling point inside f depends on the runtime.
+func SyncMapRange(m *sync.Map, f func(key, value interface{}) bool) {
+	type kv struct {
+		ks   string
+		k, v interface{}
+	}
+	var all []kv
+	m.Range(func(k, v interface{}) bool {
+		all = append(all, kv{fmt.Sprintf("%T:%v", k, k), k, v})
+		return true
+	})
+	sort.Slice(all, func(i, j int) bool { return all[i].ks < all[j].ks })
+	for _, e := range all {
+		if !f(e.k, e.v) {
+			return
+		}
+	}
+}
+
+// ZeroOut sets *p to the zero value of its type (p is a pointer to a package-level variable).
+func ZeroOut(p interface{}) {
+	v := reflect.ValueOf(p).Elem()
+	v.Set(reflect.Zero(v.Type()))
 }
